@@ -50,8 +50,9 @@ file_create(struct file* file, const char* filename, size_t bytesof_filename)
         }
         // The file is ours now: start from an empty file, as CREATE_ALWAYS
         // does on windows. (Truncating at open() would empty a file that
-        // another writer holds locked.)
-        if (ftruncate(file->fid, 0) < 0) {
+        // another writer holds locked.) A device or a pipe has nothing to
+        // truncate: ftruncate() answers EINVAL for those, and only for those.
+        if (ftruncate(file->fid, 0) < 0 && errno != EINVAL) {
             int tmp = errno;
             close(file->fid);
             CHECK_POSIX(tmp);
